@@ -20,10 +20,13 @@ Do(b, o) == CASE o = "turn" -> [b EXCEPT !.k = @ + 1]
 Init == box \in Start /\ probe \in Probes /\ ops = <<>>
 Next == Len(ops) < D /\ \E o \in Ops : box' = Do(box, o) /\ ops' = Append(ops, o) /\ UNCHANGED probe
 Spec == Init /\ [][Next]_<<box, ops, probe>>
+RECURSIVE SetToSeqV(_)
+SetToSeqV(S) == IF S = {} THEN <<>> ELSE LET v == CHOOSE y \in S : TRUE IN <<v>> \o SetToSeqV(S \ {v})
 PJ(b) == [x |-> b.x, y |-> b.y, w |-> b.w, h |-> b.h, k |-> b.k]
 Emit == Len(ops) = D =>
   PrintT(<<"REPLAY", ToJson([kind |-> "boxobj", ops |-> ops, final |-> PJ(box), probe |-> PJ(probe),
                               inter16 |-> Inter16(box, probe), union16 |-> Union16(box, probe), area16 |-> Area16(box),
+                              verts |-> SetToSeqV(Vertices(box)),
                               own |-> <<Own(<<box, probe>>, 1), Own(<<box, probe>>, 2)>>,
                               cells |-> <<Cardinality(Cells(box)), Cardinality(Cells(probe))>>])>>)
 =============================================================================
